@@ -879,11 +879,17 @@ def _main(a, pid, run, seed, t0):
 
     # ---- discharge (translation validation of every inst runs alongside, as a supporting check)
     tv_results = []
+    tv_regions = {}
+    try:
+        for f_ in json.load(open(os.path.join(VERIF, 'known_findings.json'))).get('findings', []):
+            tv_regions.setdefault(f_.get('inst'), {}).setdefault(f_.get('entry'), []).append(f_.get('region'))
+    except Exception:
+        pass
     def do_tv(key):
         inst, defs = key
         try:
             return translation_validation(run, inst, run.inst_built[key], hdrs[inst], os.path.join(VERIF, 'spec', inst + '.h'),
-                                          600 if a.tier == 'quick' else 20000, seed, autos.get(inst))
+                                          600 if a.tier == 'quick' else 20000, seed, tv_regions.get(inst))
         except Exception as e:
             return {'inst': inst, 'status': 'unavailable', 'detail': 'exception: %r' % (e,), 'compared': 0, 'wrappers': [], 'skipped': []}
     with ThreadPoolExecutor(max_workers=a.j) as ex:
